@@ -715,7 +715,7 @@ theorem callLines_clean (c : Call) (h : c.clean = true) : ∀ l ∈ callLines c,
       · simpa [List.all_eq_true] using this
       · exact ⟨hu, by simpa [List.all_eq_true] using this⟩
 
-theorem flatMap_congr' {α β} (l : List α) (f g : α → List β) (h : ∀ x ∈ l, f x = g x) : l.flatMap f = l.flatMap g := by
+theorem flatMap_congr_on {α β} (l : List α) (f g : α → List β) (h : ∀ x ∈ l, f x = g x) : l.flatMap f = l.flatMap g := by
   induction l with
   | nil => rfl
   | cons x xs ih => simp [List.flatMap_cons, h x (by simp), ih (fun y hy => h y (List.mem_cons_of_mem _ hy))]
@@ -726,7 +726,7 @@ theorem C19prom_partial (group : Bool) (cs : List Call) (h : cs.all Call.wf = tr
     parse (renderV false group cs) = some (linesOfV group cs) := by
   have e : renderV false group cs = renderV true group cs := by
     unfold renderV
-    apply flatMap_congr'
+    apply flatMap_congr_on
     intro l hl
     obtain ⟨c, hcs, _, hlc⟩ := mem_linesOfV hl
     exact renderLine_clean l (callLines_clean c (List.all_eq_true.mp hc c hcs) l hlc)
